@@ -8,6 +8,7 @@ import (
 	"context"
 	"encoding/csv"
 	"errors"
+	"fmt"
 	"io"
 	"os"
 	"sort"
@@ -130,6 +131,11 @@ func (s *Sorter) Reset() {
 }
 
 func (s *Sorter) AddRow(row []string) error {
+	for _, str := range row {
+		if len(str) > 65535 {
+			return fmt.Errorf("cell value %q... is too long (%d > 65535 bytes)", str[:40], len(str))
+		}
+	}
 	s.size += 4
 	for _, str := range row {
 		s.size += uint64(len(str)) + 2
@@ -197,7 +203,9 @@ func (s *Sorter) SortFile(f io.ReadCloser, pk []string) (err error) {
 		} else if err != nil {
 			return
 		}
-		s.AddRow(row)
+		if err = s.AddRow(row); err != nil {
+			return
+		}
 	}
 	if s.pt != nil {
 		s.pt.Done()
